@@ -103,6 +103,8 @@ class DAG(Graph):
 
         # Check to make sure we've not created a cycle.
         if self.detect_cycle():
+            # Refuse the edge: leave the graph as it was.
+            self.adjacency_table[src].remove(dest)
             msg = "Adding edge ({}, {}) crates a cycle.".format(src, dest)
             logger.error(msg)
             raise Exception(msg)
